@@ -69,11 +69,14 @@ Proof. intros H s. repeat split; auto. Qed.
 Lemma quiet_set_available : Quiet set_available.
 Proof.
   intros s. unfold set_available.
-  assert (Q : Quiet (modify (fun s0 => set_stream (Some (s_nextgen s)) (set_nextgen (s_nextgen s + 1) s0));;
-                     hook_open HAvail;; modify (set_hUnavail true);; set_online;; emit [EPathReady (s_nextgen s)])).
-  { repeat qbind; [qsetter|apply quiet_hook_open|qsetter|apply quiet_set_online|apply quiet_emit; reflexivity]. }
+  assert (Q : Quiet (modify (fun s0 => set_sub (if aa s0 then SOffline else SNone)
+                                         (set_stream (Some (s_nextgen s)) (set_nextgen (s_nextgen s + 1) s0)));;
+                     hook_open HAvail;; modify (set_hUnavail true);; whenM not_aa set_online;; emit [EPathReady (s_nextgen s)])).
+  { repeat qbind; [qsetter|apply quiet_hook_open|qsetter|apply quiet_when, quiet_set_online|apply quiet_emit; reflexivity]. }
   apply Q.
 Qed.
+Lemma quiet_offline_start : Quiet (set_offline ;; start_offline).
+Proof. qbind; [apply quiet_set_offline|unfold start_offline; qsetter]. Qed.
 Lemma quiet_call_unavailable : Quiet call_unavailable.
 Proof.
   change call_unavailable with (fun s => if s_hUnavail s then hook_close HAvail s else panic s).
@@ -121,8 +124,12 @@ Proof.
   apply noans_bind; [apply noans_reset|].
   apply noans_bind; [apply noans_quiet, quiet_call_unavailable|apply noans_quiet; qsetter].
 Qed.
+Lemma noans_source_gone : NoAns source_gone.
+Proof.
+  intros s. unfold source_gone. destruct (aa s); [apply (noans_quiet _ quiet_offline_start)|apply noans_sna].
+Qed.
 Lemma noans_erp : NoAns execute_remove_publisher.
-Proof. unfold execute_remove_publisher. apply noans_bind; [apply noans_sna|apply noans_quiet; qsetter]. Qed.
+Proof. unfold execute_remove_publisher. apply noans_bind; [apply noans_source_gone|apply noans_quiet; qsetter]. Qed.
 
 (* ---- answers and holds: what is answered plus what stays on hold is what was on hold ------------------ *)
 Definition AK (m : M) : Prop :=
@@ -180,7 +187,7 @@ Proof. intros s. destruct (consume_ans s) as [A B]. rewrite A, B, app_nil_r. app
 (* the request id an operation brings in (a SetReady of a stopped / already ready instance never reaches the loop) *)
 Definition op_keys (s : pstate) (o : pop) : list Z :=
   match o with
-  | Describe q | AddPublisher q _ | AddReader q _ => [q]
+  | Describe q | AddPublisher q _ _ | AddReader q _ => [q]
   | StaticReady q => if negb (s_closed s) && (s_ssRunning s && negb (s_instReady s)) then [q] else []
   | _ => []
   end.
@@ -193,14 +200,18 @@ Qed.
 Ltac nbind := lazymatch goal with |- NoAns (_ ;; _) => apply noans_bind end.
 Ltac nq := apply noans_quiet.
 
-Lemma quiet_pre_attach p : Quiet (pre_attach p).
+Lemma quiet_pre_tail p : Quiet (pre_tail p).
 Proof.
-  unfold pre_attach. repeat qbind; [apply quiet_set_available|qsetter|].
+  unfold pre_tail. repeat qbind; [qsetter|qsetter|apply quiet_when, quiet_set_online|].
   apply quiet_when. qbind; [qsetter|apply quiet_pub_schedule_close].
 Qed.
+Lemma quiet_when_sa : Quiet (whenM not_aa set_available).
+Proof. apply quiet_when, quiet_set_available. Qed.
+Lemma quiet_pre_attach p : Quiet (pre_attach p).
+Proof. unfold pre_attach. qbind; [apply quiet_when_sa|apply quiet_pre_tail]. Qed.
 Lemma quiet_pre_static_ready : Quiet pre_static_ready.
 Proof.
-  unfold pre_static_ready. qbind; [apply quiet_set_available|].
+  unfold pre_static_ready. repeat qbind; [apply quiet_when_sa|qsetter|apply quiet_when, quiet_set_online|].
   apply quiet_when. qbind; [qsetter|apply quiet_ss_schedule_close].
 Qed.
 
@@ -209,18 +220,31 @@ Proof. intros H. destruct (H s) as (A & B & C & _). unfold held. rewrite B, C. a
 Lemma held_noans m s : NoAns m -> held (fst (m s)) = held s /\ ak (snd (m s)) = [].
 Proof. intros H. destruct (H s) as (A & B & C). unfold held. rewrite B, C. auto. Qed.
 
-Lemma akq_attach q p s :
-  ak (snd (attach_publisher q p s)) = held s ++ [q] /\ held (fst (attach_publisher q p s)) = [].
+Lemma attach_tail_events q p s :
+  snd (attach_tail q p s) =
+  snd (pre_tail p s) ++ snd (consume_on_hold (fst (pre_tail p s))) ++
+  [EAnswer q (AStream (cur_stream (fst (consume_on_hold (fst (pre_tail p s))))))].
+Proof. unfold attach_tail, pre_tail. rewrite !snd_bind, !fst_bind. cbn [snd fst modify]. rewrite <- !app_assoc. reflexivity. Qed.
+
+Lemma akq_attach_tail q p s :
+  ak (snd (attach_tail q p s)) = held s ++ [q] /\ held (fst (attach_tail q p s)) = [].
 Proof.
-  rewrite fst_attach.
-  assert (E : snd (attach_publisher q p s) =
-              snd (pre_attach p s) ++ snd (consume_on_hold (fst (pre_attach p s))) ++
-              [EAnswer q (AStream (cur_stream (fst (consume_on_hold (fst (pre_attach p s))))))]).
-  { unfold attach_publisher, pre_attach. rewrite !snd_bind, !fst_bind. cbn [snd fst modify]. rewrite <- !app_assoc. reflexivity. }
-  rewrite E, !ak_app.
-  destruct (held_quiet _ s (quiet_pre_attach p)) as [H1 H2].
-  destruct (consume_ans (fst (pre_attach p s))) as [C1 C2].
+  rewrite fst_attach_tail, attach_tail_events, !ak_app.
+  destruct (held_quiet _ s (quiet_pre_tail p)) as [H1 H2].
+  destruct (consume_ans (fst (pre_tail p s))) as [C1 C2].
   rewrite H2, C1, H1, C2. split; reflexivity.
+Qed.
+
+(* a refused publisher is answered (with the error) and leaves the holds as they are *)
+Lemma akq_attach q p ok s :
+  Permutation (ak (snd (attach_publisher q p ok s)) ++ held (fst (attach_publisher q p ok s))) (held s ++ [q]).
+Proof.
+  unfold attach_publisher. rewrite ak_bind, fst_bind.
+  destruct (held_quiet _ s quiet_when_sa) as [H1 H2]. rewrite H2. cbn [app].
+  set (s1 := fst (whenM not_aa set_available s)) in *. cbn beta.
+  destruct (aa s1 && negb ok).
+  - cbn [fst snd]. rewrite H1. apply (Permutation_app_comm [_]).
+  - destruct (akq_attach_tail q p s1) as [A1 A2]. rewrite A1, A2, H1, app_nil_r. apply Permutation_refl.
 Qed.
 
 Lemma akq_static_ready q s :
@@ -231,7 +255,7 @@ Proof.
   assert (E : snd (do_static_ready q s) =
               snd (pre_static_ready s) ++ snd (consume_on_hold (fst (pre_static_ready s))) ++
               [EAnswer q (AStream (cur_stream (set_instReady true (fst (consume_on_hold (fst (pre_static_ready s)))))))]).
-  { unfold do_static_ready, pre_static_ready. rewrite En. rewrite !snd_bind, !fst_bind. cbn [snd fst modify].
+  { unfold do_static_ready, pre_static_ready. rewrite En. rewrite !snd_bind, !fst_bind. cbn [snd fst modify app].
     rewrite <- !app_assoc. reflexivity. }
   rewrite E, !ak_app.
   destruct (held_quiet _ s quiet_pre_static_ready) as [H1 H2].
@@ -260,7 +284,7 @@ Qed.
 Lemma noans_static_not_ready : NoAns do_static_not_ready.
 Proof.
   intros s. unfold do_static_not_ready. destruct (s_ssRunning s && s_instReady s); [|repeat split; reflexivity].
-  apply (noans_bind _ _ noans_sna). apply noans_bind; [nq; qsetter|]. apply noans_when. nq. apply quiet_ss_stop.
+  apply (noans_bind _ _ noans_source_gone). apply noans_bind; [nq; qsetter|]. apply noans_when. nq. apply quiet_ss_stop.
 Qed.
 
 Lemma ak_timer t : AK (do_timer t).
@@ -332,9 +356,9 @@ Proof.
       * destruct (negb (c_override (s_conf s))); [apply (Permutation_app_comm [_])|].
         rewrite !ak_bind, !fst_bind.
         destruct (held_noans _ (fst (emit [EPubClosed old] s)) noans_erp) as [H1 H2].
-        destruct (akq_attach q p (fst (execute_remove_publisher (fst (emit [EPubClosed old] s))))) as [A1 A2].
-        rewrite H2, A1, A2, H1. cbn. rewrite app_nil_r. apply Permutation_refl.
-      * destruct (akq_attach q p s) as [A1 A2]. rewrite A1, A2, app_nil_r. apply Permutation_refl.
+        pose proof (akq_attach q p ok (fst (execute_remove_publisher (fst (emit [EPubClosed old] s))))) as A.
+        rewrite H2. rewrite H1 in A. exact A.
+      * apply akq_attach.
     + (* RemovePublisher *) apply ak_noans, noans_remove_publisher.
     + (* AddReader *) unfold do_add_reader. destruct (s_stream s).
       * destruct (arp_ans q r s) as (A1 & A2 & A3). rewrite A1. unfold held. rewrite A2, A3. apply (Permutation_app_comm [_]).
@@ -359,7 +383,7 @@ Qed.
 
 (* ---- histories ------------------------------------------------------------------------------------------ *)
 Definition req_ids (o : pop) : list Z :=
-  match o with Describe q | AddPublisher q _ | AddReader q _ | StaticReady q => [q] | _ => [] end.
+  match o with Describe q | AddPublisher q _ _ | AddReader q _ | StaticReady q => [q] | _ => [] end.
 
 Fixpoint all_keys (fx : bool) (s : pstate) (ops : list pop) : list Z :=
   match ops with
@@ -402,15 +426,25 @@ Proof.
   - cbn. split; [exact N|apply incl_appr, I].
 Qed.
 
+Lemma quiet_init_m : Quiet init_m.
+Proof.
+  unfold init_m. qbind; [apply quiet_when, quiet_set_available|apply quiet_when, quiet_handler_start].
+Qed.
+Lemma init_quiet cf : ak (init_events cf) = [] /\ held (init_state cf) = [].
+Proof.
+  destruct (quiet_init_m (init_base cf)) as (A & B & C & _). unfold init_events, init_state, held.
+  rewrite A, B, C. split; reflexivity.
+Qed.
+
 (* no request id is answered twice; what is still on hold has not been answered *)
 Lemma c19_at_most_once fx cf ops :
   NoDup (flat_map req_ids ops) ->
   NoDup (ak (snd (run_gen fx cf ops)) ++ held (fst (run_gen fx cf ops))).
 Proof.
   intros Hn. unfold run_gen. cbn [fst snd]. rewrite ak_app.
-  replace (ak (init_events cf)) with (@nil Z) by (unfold init_events; destruct (c_static cf && negb (c_sod cf)); reflexivity).
+  destruct (init_quiet cf) as [I1 I2]. rewrite I1.
   cbn [app].
-  pose proof (trace_ak fx ops (init_state cf)) as P. cbn [held init_state s_dhold s_rhold map app] in P.
+  pose proof (trace_ak fx ops (init_state cf)) as P. rewrite I2 in P. cbn [app] in P.
   eapply Permutation_NoDup; [apply Permutation_sym, P|]. apply all_keys_nodup. exact Hn.
 Qed.
 
@@ -429,9 +463,9 @@ Lemma c19_exactly_once_closed fx cf ops :
   Permutation (ak (snd (run_gen fx cf ops))) (all_keys fx (init_state cf) ops).
 Proof.
   intros Hc Hcl. unfold run_gen in *. cbn [fst snd] in *. rewrite ak_app.
-  replace (ak (init_events cf)) with (@nil Z) by (unfold init_events; destruct (c_static cf && negb (c_sod cf)); reflexivity).
+  destruct (init_quiet cf) as [I1 I2]. rewrite I1.
   cbn [app].
-  pose proof (trace_ak fx ops (init_state cf)) as P. cbn [held init_state s_dhold s_rhold map app] in P.
+  pose proof (trace_ak fx ops (init_state cf)) as P. rewrite I2 in P. cbn [app] in P.
   pose proof (inv_run fx cf ops Hc) as [Hb _].
   destruct (closed_facts _ _ Hb Hcl) as (Hh & _). rewrite Hh, app_nil_r in P. exact P.
 Qed.
